@@ -363,6 +363,8 @@ theorem ciWilson_of_domain (crit : Crit Rex) (conf : Confidence Rex) (h0 : 0 < c
   apply finishWilson_eq_finish
   · rw [wilsonCentre_val, wilsonSpan_val]; linarith
   · rw [wilsonCentre_val, wilsonSpan_val]; linarith
+  · rw [wilsonCentre_val, wilsonSpan_val]; linarith
+  · rw [wilsonCentre_val, wilsonSpan_val]; linarith
 
 /-- the Wald standard deviation `√((k/n)(1 - k/n)/n)` -/
 noncomputable def waldSd (n k : ℝ) : ℝ := sqrt (k / n * (1 - k / n) / n)
